@@ -277,7 +277,7 @@ def main():
                 chk.violation("C17:" + str(p[0]), f"case #{x['n']} {({k: v for k, v in x.items() if k != 'problems'})}: {p}", dict(n=x["n"], quantile=bool(x.get("quantile"))))
     # ---- in situ: every iteration of real INS runs (threshold is a live likelihood, min_samples floor on the training set)
     run_matrix(chk, props=("C17",), sampler="ins", timeout=240, finish=False, deciding=["C17.insitu_threshold_checks"], rule="",
-               names=["ins-default", "ins-min-samples", "ins-max-samples", "ins-quantile", "ins-entropy-q", "ins-replace-all", "ins-draw-variable", "ins-strict", "ins-no-iid", "ins-zero-likelihood-region-min-samples", "ins-zero-likelihood-region-strict"] if chk.quick else None)
+               names=["ins-default", "ins-min-samples", "ins-max-samples", "ins-quantile", "ins-entropy-q", "ins-replace-all", "ins-draw-variable", "ins-strict", "ins-no-iid", "ins-zero-likelihood-region-min-samples", "ins-zero-likelihood-region-strict", "ins-no-iid-max-samples-below-floor", "ins-no-iid-n-update-below-floor"] if chk.quick else None)
     chk.extra["excluded_by_precondition"] = ["min_remove >= size (index past the end)", "max_samples < min_samples + nlive (cannot all be honoured)", "all weights -inf"]
     chk.finish("generated live sets (sizes 1..5000, 6 weight classes incl. -inf entries, tied likelihoods) x both threshold methods with random q / include_likelihood / "
                "use_log_weights x min_samples, min_remove, max_samples, nlive, draw_constant on a real un-run ImportanceNestedSampler; the method's own cut is captured by a "
